@@ -26,6 +26,9 @@ const DECOS: &[(&str, &str)] = &[
     ("block comment starting with /", " /*/ toggled */ "),
     ("block comment starting with //", " /*// old */ "),
     ("block comment ending with /", " /* a /*/ "),
+    ("two block comments back to back", " /* a *//* b */ "),
+    ("block comment directly followed by a line comment", " /* a */// b\n"),
+    ("block comment closed then reopened over the line end", " /* a *//* b\n c */ "),
     ("multi-line block comment", " /* first\n   second \"\n   #endif\n */ "),
     ("line comment", " // note\n"),
     ("line comment with /*", " // has /* inside\n"),
